@@ -142,6 +142,13 @@ impl Axecutor {
             length
         );
 
+        // An access must not wrap around the end of the address space
+        if address.checked_add(length).is_none() {
+            return Err(AxError::from(format!(
+                "Memory read of length {length} at address {address:#x} exceeds the address space"
+            )));
+        }
+
         let area = self
             .state
             .memory
@@ -363,6 +370,15 @@ impl Axecutor {
             address,
             data.len()
         );
+
+        // An access must not wrap around the end of the address space
+        if address.checked_add(data.len() as u64).is_none() {
+            return Err(AxError::from(format!(
+                "Memory write of length {} at address {:#x} exceeds the address space",
+                data.len(),
+                address
+            )));
+        }
 
         let area = match self
             .state
